@@ -184,13 +184,21 @@ func GenRoutes(t *rapid.T, o *RouteOpts) *RouteSpec {
 		}
 		usedP := map[string]bool{}
 		nStmts := rapid.IntRange(0, 4).Draw(t, "nStmts")
-		hasBind, hasFile, hasJSON := false, false, false
+		hasBind, hasFile, hasJSON, hasForm := false, false, false, false
 		for s := 0; s < nStmts; s++ {
 			st := RStmt{Form: []string{"define", "assign", "blank", "iferr"}[rapid.IntRange(0, 3).Draw(t, "stmtForm")]}
 			ks := []string{"bind", "query", "query", "querybool", "queryint64", "querygeneric", "formvalue", "formfile", "formjson", "query"}
 			st.Kind = ks[rapid.IntRange(0, len(ks)-1).Draw(t, "stmtKind")]
 			if h.Inner && (st.Kind == "querybool" || st.Kind == "queryint64" || st.Kind == "querygeneric" || st.Kind == "formjson") {
 				st.Kind = "query" // the typed helpers live in the main package
+			}
+			// a request carries either a JSON body or form data, never both
+			isFormStmt := st.Kind == "formvalue" || st.Kind == "formfile" || st.Kind == "formjson"
+			if (isFormStmt && hasBind) || (st.Kind == "bind" && hasForm) {
+				st.Kind = "query"
+			}
+			if isFormStmt && st.Kind != "query" {
+				hasForm = true
 			}
 			switch st.Kind {
 			case "bind":
@@ -282,6 +290,9 @@ func GenRoutes(t *rapid.T, o *RouteOpts) *RouteSpec {
 
 		// the registration
 		r := RRoute{Verb: []string{"GET", "POST", "PUT", "DELETE"}[rapid.IntRange(0, 3).Draw(t, "verb")], Handler: len(rs.Handlers) - 1, ViaCtrl: h.Ctrl}
+		if (hasBind || hasForm) && (r.Verb == "GET" || r.Verb == "DELETE") && o.gated("body_on_get_delete") {
+			r.Verb = "POST"
+		}
 		nParts := rapid.IntRange(1, 3).Draw(t, "nParts")
 		for p := 0; p < nParts; p++ {
 			switch rapid.IntRange(0, 5).Draw(t, "partKind") {
